@@ -2,6 +2,7 @@ import Mathlib.Algebra.Order.Field.Rat
 import TapkeeVerif.Proofs.TsneBasic
 import TapkeeVerif.Proofs.TsneVp
 import TapkeeVerif.Proofs.TsneCsrTotal
+import TapkeeVerif.Proofs.TsneKL
 import TapkeeVerif.Model.TsneRun
 import TapkeeVerif.Proofs.QuadTreeForces
 /-!
@@ -282,12 +283,37 @@ theorem exactGradientSpec_apply {N D : Nat} (P : Mat N N K) (Y : Mat N D K) (n :
    such `θ`.  The substitution through the flat-buffer model (`bhGradient`, with its `Except` bounds checks) is not
    carried out in Lean; the correspondence check compares both on every generated case at `θ = 1e-6` (oracle `bh0`).
 
-   `exactGradient_is_grad_KL` — FULL STATEMENT over ℝ:
-     HasGradientAt (fun Y => Σ_{n≠m} P n m * log (P n m / Qn Y n m)) (4 • exactGradientSpec P Y) Y
-   for symmetric P summing to one (Qn = Student-t similarities normalised to sum one).  Not proved (real analysis,
-   DESIGN §9); `exactGradient_is_grad_KL_partial` = `gradient_identity` + `exactGradientSpec_apply`, and the check runs a
-   finite-difference test of the implementation against KL evaluated with rational log enclosures (a test). -/
+   -/
 end
+
+/-- **`exactGradient_is_grad_KL`** — over ℝ: for every symmetric `P` whose off-diagonal entries sum to one and every map
+    `Y`, the Kullback–Leibler divergence `Y ↦ Σ_{a≠c} P_ac log (P_ac / Q_ac(Y))` (`Q` the Student-t similarities
+    normalised over the off-diagonal pairs) is Fréchet differentiable at `Y`, and its derivative is
+    `H ↦ Σ_{n,d} 4 · exactGradientSpec P Y n d · H n d`: the routine's formula over true distances is exactly a quarter
+    of the gradient (the factor 4 is absorbed in the learning rate, as in the reference implementation).
+    (`KL`, `gradL`: `Proofs/TsneKL.lean`.) -/
+theorem exactGradient_is_grad_KL {N D : Nat} (P : Mat N N ℝ) (hsym : ∀ n m, P n m = P m n)
+    (hsum : (∑ a, ∑ c, if a = c then 0 else P a c) = 1) (Y : Fin N → Fin D → ℝ) :
+    HasFDerivAt (fun Y : Fin N → Fin D → ℝ => KL P Y) (gradL fun n d => 4 * exactGradientSpec P Y n d) Y :=
+  hasFDerivAt_KL P hsym hsum Y
+
+/-- … read along a line: the derivative of `t ↦ KL(Y + t H)` at `0` is `Σ 4 · dC_nd · H_nd` for every direction `H` -/
+theorem exactGradient_directional {N D : Nat} (P : Mat N N ℝ) (hsym : ∀ n m, P n m = P m n)
+    (hsum : (∑ a, ∑ c, if a = c then 0 else P a c) = 1) (Y H : Fin N → Fin D → ℝ) :
+    HasDerivAt (fun t : ℝ => KL P (Y + t • H)) (∑ n, ∑ d, 4 * exactGradientSpec P Y n d * H n d) 0 := by
+  have hg : HasDerivAt (fun t : ℝ => Y + t • H) H 0 := by
+    simpa using ((hasDerivAt_id (0 : ℝ)).smul_const H).const_add Y
+  have hf : HasFDerivAt (fun Y : Fin N → Fin D → ℝ => KL P Y) (gradL fun n d => 4 * exactGradientSpec P Y n d)
+      ((fun t : ℝ => Y + t • H) 0) := by
+    simpa using hasFDerivAt_KL P hsym hsum Y
+  have := hf.comp_hasDerivAt 0 hg
+  rw [gradL_apply] at this
+  exact this
+
+/-- non-vacuity of the hypotheses: two points, `P = [[0, 1/2], [1/2, 0]]` -/
+example : ∃ P : Mat 2 2 ℝ, (∀ n m, P n m = P m n) ∧ (∑ a, ∑ c, if a = c then 0 else P a c) = 1 :=
+  ⟨fun a c => if a = c then 0 else 1 / 2, fun n m => by by_cases h : n = m <;> simp [h, eq_comm],
+    by simp [Fin.sum_univ_two]; norm_num⟩
 
 /-! ### `TSNE::run`: the generated statement list against the specification
 
